@@ -2461,7 +2461,32 @@ Plan generate(const std::string& prop, std::uint64_t seed, int tier) {
     // (a method called from the constructor or destructor of an abstract
     // base); not under the scheduler, which has its own argument rules
     g_abstract_args = prop != "C16" && (mix3(seed, 0xAB57AC7, 1) & 1);
-    Plan p = generate_profile(prop, seed, tier);
+    // Properties decided by per-state oracles (the model, the structural
+    // scan, the look-up and catalog checks run at every check / load event of
+    // every plan) borrow one plan in eight from the profile of another
+    // property: each profile was written with one property in mind, and
+    // seeded changes were missed more than once because the state they
+    // needed was only reached by a neighbour's profile. The borrowed plan
+    // runs under the borrower's focus, without the lender's differential.
+    static const std::set<std::string> borrowers = {
+        "C01", "C02", "C03", "C04", "C05", "C17", "C18"};
+    static const char* const lenders[] = {
+        "C01", "C02", "C03", "C04", "C05", "C06", "C07", "C08",
+        "C09", "C10", "C14", "C15", "C17", "C18"};
+    std::string from = prop;
+    if (borrowers.count(prop) && mix3(seed, 0xB0220, 2) % 8 == 0)
+        from = lenders[mix3(seed, 0xB0220, 3) %
+                       (sizeof lenders / sizeof lenders[0])];
+    Plan p;
+    if (from == prop)
+        p = generate_profile(prop, seed, tier);
+    else {
+        p = generate_profile(from, mix3(seed, 0xB0220, 4), tier);
+        p.prop = prop;
+        p.profile = "borrowed:" + from + "/" + p.profile;
+        p.diff.clear();
+        p.orders.clear();
+    }
     p.abstract_args = g_abstract_args ? 1 : 0;
     g_abstract_args = false;
     return p;
